@@ -247,13 +247,30 @@ class Ctx:
         os.makedirs(os.path.join(COQ, "logs"), exist_ok=True)
         # 1. forbidden tokens anywhere in the development
         bad = []
-        for root, _, fs in os.walk(COQ):
-            for fn in fs:
-                if fn.endswith(".v") or fn == "_CoqProject":
-                    txt = open(os.path.join(root, fn)).read()
-                    txt_nc = re.sub(r"\(\*.*?\*\)", "", txt, flags=re.S)
-                    for m in FORBIDDEN.finditer(txt_nc):
-                        bad.append("%s: %s" % (os.path.relpath(os.path.join(root, fn), COQ), m.group(0)))
+        # the development = the files listed in _CoqProject (what setup_cmd builds) + this property's file and its local imports
+        listed = ["_CoqProject"] + [l.strip() for l in open(os.path.join(COQ, "_CoqProject")) if l.strip().endswith(".v")]
+        mine = "Properties/%s.v" % self.pid
+        todo, seen_f = [mine], set(listed)
+        while todo:
+            f = todo.pop()
+            if f not in seen_f:
+                seen_f.add(f)
+                listed.append(f)
+            if os.path.exists(os.path.join(COQ, f)):
+                for grp, names in re.findall(r"From PyOMA\.(\w+) Require (?:Import|Export) ([^.]*)\.", open(os.path.join(COQ, f)).read()):
+                    for nme in names.split():
+                        g = "%s/%s.v" % (grp, nme)
+                        if g not in seen_f and g not in todo:
+                            todo.append(g)
+        for fn in listed:
+            path = os.path.join(COQ, fn)
+            if not os.path.exists(path):
+                bad.append("%s: listed but missing" % fn)
+                continue
+            txt = open(path).read()
+            txt_nc = re.sub(r"\(\*.*?\*\)", "", txt, flags=re.S)
+            for m in FORBIDDEN.finditer(txt_nc):
+                bad.append("%s: %s" % (fn, m.group(0)))
         if bad:
             pr["errors"].append("forbidden tokens: " + "; ".join(bad[:5]))
         # 2. full build (no-op when up to date)
